@@ -810,6 +810,7 @@ impl Kanata {
             if let Some(event) = tick_replay_state(
                 &mut self.dynamic_macro_replay_state,
                 self.dynamic_macro_replay_behaviour,
+                self.layout.b().queue.is_empty(),
             ) {
                 self.layout.bm().event(event.key_event());
                 extra_ticks = extra_ticks.saturating_add(event.delay());
@@ -821,6 +822,7 @@ impl Kanata {
             if tick_replay_state(
                 &mut self.dynamic_macro_replay_state,
                 self.dynamic_macro_replay_behaviour,
+                self.layout.b().queue.is_empty(),
             )
             .is_some()
             {
